@@ -83,6 +83,8 @@ H("C20", "hpotermid", "c20_parse_prefixed_tail11", tier="thorough", mem="medium"
 H("C20", "hpotermid", "c20_parse_seven_digits_is_value", bounds="all 10^7 seven-digit strings", inputs="7 digits")
 H("C20", "hpotermid", "c20_bytes_roundtrip_all_u32", bounds="all u32 / all [u8;4]", inputs="u32, [u8;4], u16, u32")
 H("C20", "hpotermid", "c20_annotation_ids_bytes_all_u32", bounds="all u32", inputs="u32")
+H("C20", "hpotermid", "c20_display_border_ids_low", tq=900, mem="medium", bounds="concrete ids 0, 1, 118, 9 999 999 through Display and back (concrete sanity run)")
+H("C20", "hpotermid", "c20_display_border_ids_high", tq=900, mem="medium", bounds="concrete ids 10 000 000, 10 000 118, u32::MAX through Display and back (concrete sanity run)")
 H("C20", "hpotermid", "c20_twin_must_fail", expect="fail")
 
 # ------------------------------------------------------------------------------------------------
@@ -331,3 +333,42 @@ H("C08", "disease", "c08_orpha_wrong_length_n0_t0", tq=900, mem="medium", bounds
 H("C08", "disease", "c07_omim_decode_n1_t1", tq=600, bounds="omim record shape n1_t1")
 H("C08", "binary_ontology", "c08_header_twin_must_fail", expect="fail")
 H("C08", "binary_term", "c08_term_twin_must_fail", expect="fail")
+
+# ------------------------------------------------------------------------------------------------
+# C18
+# ------------------------------------------------------------------------------------------------
+PROPERTIES["C18"] = dict(
+    functions=["AnnotationDelta::delta / added_terms / removed_terms / changed_name / n_terms"],
+    bounds="two term sets = any subsets of an ascending symbolic-u32 universe of 2 (quick) / 3 (thorough); names chosen from {a,b}; unwind 5-6",
+    stubs=[],
+    outside="added_* / removed_* / changed_* enumeration over the two ontologies' hash maps and arenas; HpoTermDelta::new (builds two HashSet<HpoTermId>); "
+            "AnnotationDelta::gene/::disease wrappers (id.to_string() -> core::fmt); comparison with the binary round trip; dangling replacement targets (D8)",
+    assumptions=["term groups are valid (sorted) groups"],
+)
+H("C18", "comparison", "c18_annotation_delta_u2", tq=900, mem="medium", bounds="universe of 2 ids, names in {a,b}")
+H("C18", "comparison", "c18_annotation_delta_swap", tq=900, mem="medium", bounds="universe of 2 ids, different sets, swapped arguments")
+H("C18", "comparison", "c18_annotation_delta_u3", tier="thorough", mem="heavy", tt=3600, deep=True, bounds="universe of 3 ids, names in {a,b}")
+H("C18", "comparison", "c18_twin_must_fail", expect="fail")
+
+# ------------------------------------------------------------------------------------------------
+# C15
+# ------------------------------------------------------------------------------------------------
+PROPERTIES["C15"] = dict(
+    functions=["Builder<AllTerms>::add_parent", "Builder<ConnectedTerms>::annotate_gene / annotate_omim_disease / annotate_orpha_disease (add_*, link_*_term)"],
+    bounds="builder with 2 terms (add_parent) / 1 term (annotate); presence of the referenced ids per instance (concrete), pre-existing relation groups = any "
+           "subsets of 3 candidate ids; record maps empty before the call; unwind 6",
+    stubs=["std::hash::RandomState::new -> fixed keys", "Arena::default() replaced by a directly built small arena"],
+    outside="arbitrary interleavings of many calls (one call from a symbolic pre-state per harness); 'no accessor of the read API panics' on a built ontology; "
+            "annotate_* on terms with ancestors (recursive link over hash sets)",
+    assumptions=["one-step: the pre-state is a builder as earlier successful calls leave it"],
+)
+H("C15", "builder", "c15_add_parent_both_present", mem="medium", tq=900, args=FS, bounds="parent and child present; pre-state groups any subsets")
+H("C15", "builder", "c15_add_parent_child_absent", mem="medium", tq=900, args=FS, bounds="parent present, child id absent")
+H("C15", "builder", "c15_add_parent_parent_absent", mem="medium", tq=900, args=FS, bounds="parent id absent, child present")
+H("C15", "builder", "c15_add_parent_both_absent", mem="medium", tq=900, args=FS, bounds="both ids absent")
+H("C15", "builder", "c15_annotate_gene_present", mem="heavy", tq=1200, args=FS, bounds="annotate_gene on a present term, empty maps")
+H("C15", "builder", "c15_annotate_gene_absent", mem="heavy", tq=1200, args=FS, bounds="annotate_gene on an absent term id")
+H("C15", "builder", "c15_annotate_omim_absent", mem="heavy", tq=1200, args=FS, bounds="annotate_omim_disease on an absent term id")
+H("C15", "builder", "c15_annotate_orpha_absent", mem="heavy", tq=1200, args=FS, bounds="annotate_orpha_disease on an absent term id")
+H("C15", "builder", "c15_annotate_orpha_present", tier="thorough", mem="heavy", tt=3600, args=FS, bounds="annotate_orpha_disease on a present term")
+H("C15", "builder", "c15_twin_must_fail", expect="fail", args=FS)
